@@ -29,6 +29,7 @@ fn main() {
         _ => Tier::Quick,
     };
     let mut replay: Option<String> = None;
+    let mut replay_history: Option<String> = None;
     let mut print_case: Option<u64> = None;
     let mut worker: Option<(u64, u64)> = None;
     let mut progress = String::new();
@@ -52,6 +53,7 @@ fn main() {
             "quick" => tier = Tier::Quick,
             "thorough" => tier = Tier::Thorough,
             "--replay" => replay = Some(next(&mut i)),
+            "--replay-history" => replay_history = Some(next(&mut i)),
             "--print-case" => print_case = next(&mut i).parse().ok(),
             "--worker" => {
                 let w = next(&mut i);
@@ -80,6 +82,8 @@ fn main() {
 
     let code = if let Some(path) = replay {
         engine::replay_main(prop, &path)
+    } else if let Some(path) = replay_history {
+        engine::replay_history_main(prop, &path)
     } else if let Some(idx) = print_case {
         match engine::find_case(prop, tier, idx) {
             Some(c) => {
